@@ -172,13 +172,19 @@ theorem onCurve_aff_iff [Valid c] (x y : ℕ) :
   simp only [WCurve.onCurve, WCurve.rhs, Bool.and_eq_true, decide_eq_true_eq, beq_iff_eq,
     and_assoc]
   refine and_congr_right fun _ => and_congr_right fun _ => ?_
-  rw [W_equation_iff, Nat.mod_mod, ← ZMod.natCast_eq_natCast_iff']
+  rw [W_equation_iff, ← ZMod.natCast_eq_natCast_iff']
   push_cast
   constructor <;> intro h <;> linear_combination h
 
 theorem onCurve_of_equation [Valid c] {x y : ℕ} (hx : x < c.p) (hy : y < c.p)
     (h : (W c).Equation (x : ZMod c.p) (y : ZMod c.p)) : c.onCurve (.aff x y) = true :=
   (onCurve_aff_iff x y).mpr ⟨hx, hy, h⟩
+
+theorem onCurve_of_cast [Valid c] {x y : ℕ} {X Y : ZMod c.p} (hx : x < c.p) (hy : y < c.p)
+    (hX : (x : ZMod c.p) = X) (hY : (y : ZMod c.p) = Y) (h : (W c).Equation X Y) :
+    c.onCurve (.aff x y) = true := by
+  subst hX hY
+  exact onCurve_of_equation hx hy h
 
 theorem toM_aff [Valid c] {x y : ℕ} (h : c.onCurve (.aff x y) = true) :
     toM (.aff x y) = Point.some (x : ZMod c.p) (y : ZMod c.p)
@@ -270,7 +276,9 @@ theorem add_correct_aff [Valid c] {x1 y1 x2 y2 : ℕ} (hP : c.onCurve (.aff x1 y
         simp only [cast_mod, Nat.cast_mul, cast_invMod hp2, cast_subMod]
         rw [← neg_sub (y1 : ZMod c.p), ← neg_sub (x1 : ZMod c.p), inv_neg, neg_mul_neg,
           div_eq_mul_inv]
-    have hns := nonsingular_add (W_nonsingular h1) (W_nonsingular h2) hc'
+    have n1 := W_nonsingular h1
+    have n2 := W_nonsingular h2
+    have hns := nonsingular_add n1 n2 hc'
     have hX : ((subMod (addSlope c x1 y1 x2 y2 * addSlope c x1 y1 x2 y2) (x1 + x2) c.p : ℕ) :
         ZMod c.p) = (W c).addX x1 x2 ((W c).slope x1 x2 y1 y2) := by
       rw [cast_subMod, Nat.cast_mul, Nat.cast_add, hl]
@@ -285,9 +293,7 @@ theorem add_correct_aff [Valid c] {x1 y1 x2 y2 : ℕ} (hP : c.onCurve (.aff x1 y
       ring
     rw [Point.add_some hc']
     refine ⟨?_, toM_eq_some hX hY hns⟩
-    refine onCurve_of_equation (subMod_lt _ _ hp) (subMod_lt _ _ hp) ?_
-    rw [hX, hY]
-    exact hns.1
+    exact onCurve_of_cast (subMod_lt _ _ hp) (subMod_lt _ _ hp) hX hY hns.1
 
 /-- **Correctness of `WCurve.add`**: on on-curve points it is the Mathlib group law. -/
 theorem add_correct [Valid c] {P Q : WPoint} (hP : c.onCurve P = true)
